@@ -96,10 +96,25 @@ structure Prims (V : Type) where
   isShout : Bytes → Bool
   global : Bytes → List V → Except Err V
   isMut : Bytes → Bool
+  /-- non-mutating method on an evaluated receiver: the argument positions it reads, in order
+  (`arg_at` of `eval_*_member_call`), or the error when the receiver has no such method -/
+  memberSel : Bytes → V → Except Err (List Nat)
+  /-- its result, from the call, the receiver and the values of the arguments read -/
+  member : Expr → V → List V → Except Err V
+  /-- an argument position past the end of the argument list (`arg_at`) -/
+  argMissing : Err
+  /-- mutating method (dispatched by name before the receiver is looked at): the argument positions it
+  reads, in order, each with the check made on the value before the next position is evaluated -/
+  mutSteps : Bytes → List (Nat × (V → Except Err V))
   /-- mutating method: receiver root value, index path, arguments ↦ new root value and result -/
   mutMember : Bytes → V → List V → List V → Except Err (V × V)
   /-- index assignment: root value, index path, new element ↦ new root value -/
   setPath : V → List V → V → Except Err V
+  /-- check of an index value of a receiver / target path, made as soon as the value is computed
+  (`eval_index_value`) -/
+  idx : V → Except Err V
+  /-- a receiver / assignment target that is not a variable or an index chain on a variable -/
+  lvErr : Err
   /-- `facts.locals[l].declaring_scope` (what `local_scope_index` consults) -/
   dscope : Nat → Option Nat
   /-- `facts.stmt_effects[i].scope`; the scope of a block (`scope_of_block`) is the scope of its first
@@ -210,15 +225,13 @@ def lvalue : Expr → Option (Nat × List Expr)
   | .index a i _ _ => (lvalue a).map fun (r, p) => (r, p ++ [i])
   | _ => none
 
-/-- Children of a node without control flow, in evaluation order. -/
+/-- Children of a node without control flow, in evaluation order.  A bare member expression and a
+call whose callee is not a name fail at once (`Type mismatch`), without evaluating anything. -/
 def children : Expr → List Expr
   | .index a i _ _ => [a, i]
   | .binary _ l r _ => [l, r]
   | .array es _ => es
   | .unary _ e _ => [e]
-  | .member o _ _ _ => [o]
-  | .call (.member o _ _ _) args _ _ => o :: args
-  | .call _ args _ _ => args
   | _ => []
 
 def segIds : List Seg → List (Option Nat)
@@ -258,6 +271,33 @@ def finishNode (P : Prims V) (e : Expr) : R V (List V) → R V V
       match readAll P.dscope st1.env (interpIds e) with
       | none => (.error .unbound, st1)
       | some rs => (P.node e (vs ++ rs), st1)
+
+/-- Evaluate expressions in order with `ev`, checking (and replacing) each value as soon as it is
+computed; a missing expression (an argument position past the end of the list) is the error `miss`
+at that point. -/
+def evalChecked (ev : Expr → St V → R V V) (miss : Err) : List (Option Expr × (V → Except Err V)) → St V → R V (List V)
+  | [], st => (.ok [], st)
+  | (none, _) :: _, st => (.error miss, st)
+  | (some e, chk) :: rest, st =>
+      match ev e st with
+      | (.error er, st1) => (.error er, st1)
+      | (.ok v, st1) =>
+          match chk v with
+          | .error er => (.error er, st1)
+          | .ok v' =>
+              match evalChecked ev miss rest st1 with
+              | (.error er, st2) => (.error er, st2)
+              | (.ok vs, st2) => (.ok (v' :: vs), st2)
+
+/-- The argument expressions at the given positions. -/
+def selArgs (args : List Expr) (idx : List Nat) : List (Option Expr × (V → Except Err V)) :=
+  idx.map fun i => (args[i]?, Except.ok)
+
+def stepArgs (args : List Expr) (steps : List (Nat × (V → Except Err V))) : List (Option Expr × (V → Except Err V)) :=
+  steps.map fun q => (args[q.1]?, q.2)
+
+def pathItems (chk : V → Except Err V) (path : List Expr) : List (Option Expr × (V → Except Err V)) :=
+  path.map fun e => (some e, chk)
 
 mutual
   def evalExpr (P : Prims V) (cfg : Cfg) : Nat → Expr → St V → R V V
@@ -317,13 +357,13 @@ mutual
                               | _ => (.error .panic, st4)
     | n + 1, .call (.member o field fs sp) args fn sp2, st =>
         if P.isMut field then
-          match evalList P cfg n args st with
+          match evalChecked (evalExpr P cfg n) P.argMissing (stepArgs args (P.mutSteps field)) st with
           | (.error e, st1) => (.error e, st1)
           | (.ok vs, st1) =>
               match lvalue o with
-              | none => (.error .panic, st1)
+              | none => (.error P.lvErr, st1)
               | some (root, path) =>
-                  match evalList P cfg n path st1 with
+                  match evalChecked (evalExpr P cfg n) P.argMissing (pathItems P.idx path) st1 with
                   | (.error e, st2) => (.error e, st2)
                   | (.ok pvs, st2) =>
                       match lookupEnv P.dscope root st2.env with
@@ -336,9 +376,15 @@ mutual
                               | none => (.error .panic, st2)
                               | some env' => (.ok res, { st2 with env := env' })
         else
-          match evalList P cfg n (o :: args) st with
+          match evalExpr P cfg n o st with
           | (.error e, st1) => (.error e, st1)
-          | (.ok vs, st1) => (P.node (.call (.member o field fs sp) args fn sp2) vs, st1)
+          | (.ok recv, st1) =>
+              match P.memberSel field recv with
+              | .error e => (.error e, st1)
+              | .ok idx =>
+                  match evalChecked (evalExpr P cfg n) P.argMissing (selArgs args idx) st1 with
+                  | (.error e, st2) => (.error e, st2)
+                  | (.ok vs, st2) => (P.member (.call (.member o field fs sp) args fn sp2) recv vs, st2)
     | n + 1, e, st => finishNode P e (evalList P cfg n (children e) st)
 
   def evalList (P : Prims V) (cfg : Cfg) : Nat → List Expr → St V → R V (List V)
@@ -395,9 +441,9 @@ mutual
         | (.error er, st1) => (.error er, st1)
         | (.ok v, st1) =>
             match lvalue t with
-            | none => (.error .panic, st1)
+            | none => (.error P.lvErr, st1)
             | some (root, path) =>
-                match evalList P cfg n path st1 with
+                match evalChecked (evalExpr P cfg n) P.argMissing (pathItems P.idx path) st1 with
                 | (.error er, st2) => (.error er, st2)
                 | (.ok pvs, st2) =>
                     match lookupEnv P.dscope root st2.env with
